@@ -196,7 +196,7 @@ def _work_batch(args):
                         solve._AXIOMS = []
                         for which in ("z3-4.8", "cvc5"):
                             _, _, r2, _ = solve._cli((0, which, 20))
-                            if r2 in ("sat", "unsat"):
+                            if r2 == "unsat":       # a CLI `sat` on a sequence query cannot be validated here: not trusted
                                 status, backend = r2, which
                                 break
                 dt = time.time() - t0
